@@ -83,6 +83,7 @@ type Run struct {
 	RunDir   string
 	RaceLogs []string
 	Batch    []spec.Event // events a child emitted for the batch as a whole (case -1)
+	BatchDeaths []batchDeath // children that died with several cases in flight
 	mu       sync.Mutex
 }
 
@@ -224,6 +225,11 @@ func fatal(err error) {
 }
 
 // ------------------------------------------------------------ execution
+
+type batchDeath struct {
+	Open  []int
+	Death *Death
+}
 
 type batch struct {
 	n     int
@@ -381,6 +387,17 @@ func (r *Run) runBatch(vhost, vplugin, name string, cases []spec.Case, retry boo
 		}
 	}
 	r.mu.Unlock()
+	if death != nil && len(cases) > 1 {
+		var open []int
+		for _, c := range cases {
+			if begun[c.ID] && !ended[c.ID] {
+				open = append(open, c.ID)
+			}
+		}
+		r.mu.Lock()
+		r.BatchDeaths = append(r.BatchDeaths, batchDeath{Open: open, Death: death})
+		r.mu.Unlock()
+	}
 	if len(rerun) > 0 && retry {
 		// open cases alone (attribution); untouched cases together
 		var open, untouched []spec.Case
@@ -435,6 +452,33 @@ func (r *Run) judge() {
 		}
 		if res.Verdict == "inconclusive" {
 			r.Inconcl = append(r.Inconcl, fmt.Sprintf("case %d: %s", c.ID, res.Inconcl))
+		}
+	}
+	// a child that died with several cases in flight whose death did not
+	// reproduce when those cases were re-run alone is still a host death
+	for _, bd := range r.BatchDeaths {
+		if strings.HasPrefix(bd.Death.ExitErr, "start:") {
+			continue
+		}
+		reproduced := false
+		for _, id := range bd.Open {
+			if r.Deaths[id] != nil {
+				reproduced = true
+			}
+		}
+		if !reproduced {
+			key := r.P.ID + ":host-died-unattributed"
+			if strings.HasPrefix(bd.Death.ExitErr, "watchdog") {
+				key = r.P.ID + ":host-hung-unattributed"
+			}
+			sig := ""
+			for _, l := range strings.Split(bd.Death.Stderr, "\n") {
+				if strings.HasPrefix(l, "panic:") || strings.HasPrefix(l, "fatal error:") {
+					sig = l
+					break
+				}
+			}
+			r.AddViolation(-1, key, fmt.Sprintf("a host child died (%s) with cases %v in flight; not reproduced when they were re-run alone. %s\n%s", bd.Death.ExitErr, bd.Open, sig, trunc(bd.Death.Stderr, 3000)))
 		}
 	}
 	if r.P.Finish != nil {
